@@ -3,14 +3,13 @@ From Noir Require Import Proofs.BinSpec.
 From Coq Require Import Lia.
 Open Scope nat_scope.
 
-(** * T2: with two loop-side replicas the property fails (known defect) *)
-Theorem c11_refuted_two_loop_replicas :
-  exists (ds : list del), c11_pred 1 2 true false ds (brun 1 2 true false ds) = false.
-Proof.
-  exists [DL 0 [Item 1%Z; FAR]; DL 0 [Terminate]; DR 0 [Item 10%Z; FAR]; DR 1 [FAR];
-          DR 0 [Terminate]; DR 1 [Terminate]].
-  vm_compute. reflexivity.
-Qed.
+(** * Regression witness: two loop-side replicas (the former defect F10 is fixed) *)
+Theorem c11_two_loop_replicas_witness :
+  let ds : list del :=
+    [DL 0 [Item 1%Z; FAR]; DL 0 [Terminate]; DR 0 [Item 10%Z; FAR]; DR 1 [FAR];
+     DR 0 [Terminate]; DR 1 [Terminate]] in
+  c11_pred 1 2 true false ds (brun 1 2 true false ds) = true.
+Proof. vm_compute. reflexivity. Qed.
 
 (** * Part A: generic list facts and the element-wise Start *)
 
@@ -335,13 +334,14 @@ Lemma pi_term (wrap : Z -> bin Z Z) endm c mf mt :
   @process_items Z Z Z wrap endm c mf mt [Terminate] = (mf, pred mt, if c then [] else [Terminate]).
 Proof. cbn [process_items]. now rewrite app_nil_r. Qed.
 
+
 (** * Part D: one [bselect] call in each situation of a run with a cached left side *)
 Definition mkL (nl mf mt : nat) (C : list msg) (full : bool) (ptr : nat)
     (q : list (nat * list (elem Z))) : @side Z Z Z :=
   {| sd_inst := nl; sd_mfar := mf; sd_mterm := mt; sd_cached := true; sd_cache := C;
      sd_cache_full := full; sd_ptr := ptr; sd_queue := q |}.
-Definition mkR (mf mt : nat) (q : list (nat * list (elem Z))) : @side Z Z Z :=
-  {| sd_inst := 1; sd_mfar := mf; sd_mterm := mt; sd_cached := false; sd_cache := [];
+Definition mkR (nr mf mt : nat) (q : list (nat * list (elem Z))) : @side Z Z Z :=
+  {| sd_inst := nr; sd_mfar := mf; sd_mterm := mt; sd_cached := false; sd_cache := [];
      sd_cache_full := false; sd_ptr := 0; sd_queue := q |}.
 Definition mkB (l r : @side Z Z Z) (f : bool) : bst := {| b_l := l; b_r := r; b_first := f |}.
 
@@ -350,70 +350,87 @@ Ltac bred :=
     [mkB mkL mkR is_terminated is_ended cache_finished b_l b_r b_first
      sd_inst sd_mfar sd_mterm sd_cached sd_cache sd_cache_full sd_ptr sd_queue
      side_reset recv_left recv_right process_side next_cached fst snd andb orb negb].
-
 Ltac bconst :=
-  change (0 =? 0) with true; change (1 =? 0) with false; change (length (@nil msg) <=? 0) with true.
+  change (0 =? 0) with true; change (length (@nil msg) <=? 0) with true.
 Ltac bgo tac := bred; repeat (progress (bconst; tac); bred).
 
-Lemma sel_r1_left nl mfl mtl C mfr s b mf' mt' data :
-  mtl <> 0 ->
+Lemma sel_r1_left nl nr mfl mtl C mfr mtr s b mf' mt' data :
+  mtl <> 0 -> mtr <> 0 ->
   process_items BL BLEnd true mfl mtl b = (mf', mt', data) ->
-  bselect (mkB (mkL nl mfl mtl C false (length C) [(s, b)]) (mkR mfr 1 []) false)
+  bselect (mkB (mkL nl mfl mtl C false (length C) [(s, b)]) (mkR nr mfr mtr []) false)
   = SelMsg (mkB (mkL nl mf' mt' (C ++ [(s, data)]) false (length (C ++ [(s, data)])) [])
-                (mkR mfr 1 []) false) (s, data).
+                (mkR nr mfr mtr []) false) (s, data).
 Proof.
-  intros Hmt Hp. apply Nat.eqb_neq in Hmt. unfold bselect.
-  bgo ltac:(rewrite ?Hmt, ?Hp). change (0 + s) with s.
+  intros Hmt Hmr Hp. apply Nat.eqb_neq in Hmt, Hmr. unfold bselect.
+  bgo ltac:(rewrite ?Hmt, ?Hmr, ?Hp). change (0 + s) with s.
   destruct (mfr =? 0); reflexivity.
 Qed.
 
-Lemma sel_right_recv nl mfl mtl C full b mf' mt' data :
-  process_items BR BREnd false 1 1 b = (mf', mt', data) ->
-  bselect (mkB (mkL nl mfl mtl C full (length C) []) (mkR 1 1 [(0, b)]) false)
-  = SelMsg (mkB (mkL nl mfl mtl C full (length C) []) (mkR mf' mt' []) false) (nl + 0, data).
+Lemma sel_right_recv nl nr mfl mtl C full mfr mtr s b mf' mt' data :
+  mfr <> 0 -> mtr <> 0 ->
+  process_items BR BREnd false mfr mtr b = (mf', mt', data) ->
+  bselect (mkB (mkL nl mfl mtl C full (length C) []) (mkR nr mfr mtr [(s, b)]) false)
+  = SelMsg (mkB (mkL nl mfl mtl C full (length C) []) (mkR nr mf' mt' []) false) (nl + s, data).
 Proof.
-  intros Hp. unfold bselect. destruct full; destruct (mtl =? 0) eqn:Hmt;
-  bgo ltac:(rewrite ?Nat.leb_refl, ?Hp, ?Hmt); reflexivity.
+  intros Hmf Hmr Hp. apply Nat.eqb_neq in Hmf, Hmr. unfold bselect.
+  destruct full; destruct (mtl =? 0) eqn:Hmt;
+  bgo ltac:(rewrite ?Nat.leb_refl, ?Hp, ?Hmt, ?Hmf, ?Hmr); reflexivity.
 Qed.
 
-Lemma sel_idle_block nl mfl mtl C full mfr :
-  (mtl =? 0) && (mfr =? 0) = false ->
-  bselect (mkB (mkL nl mfl mtl C full (length C) []) (mkR mfr 1 []) false)
-  = SelBlock (mkB (mkL nl mfl mtl C full (length C) []) (mkR mfr 1 []) false).
+Lemma sel_idle_block nl nr mfl mtl C full mfr mtr :
+  mtr <> 0 -> (mtl =? 0) && (mfr =? 0) = false ->
+  bselect (mkB (mkL nl mfl mtl C full (length C) []) (mkR nr mfr mtr []) false)
+  = SelBlock (mkB (mkL nl mfl mtl C full (length C) []) (mkR nr mfr mtr []) false).
 Proof.
-  intros Hc. unfold bselect. destruct full; destruct (mtl =? 0) eqn:Hmt; destruct (mfr =? 0) eqn:Hmf;
-  try discriminate; bgo ltac:(rewrite ?Nat.leb_refl, ?Hmt, ?Hmf); reflexivity.
+  intros Hmr Hc. apply Nat.eqb_neq in Hmr. unfold bselect.
+  destruct full; destruct (mtl =? 0) eqn:Hmt; destruct (mfr =? 0) eqn:Hmf;
+  try discriminate; bgo ltac:(rewrite ?Nat.leb_refl, ?Hmt, ?Hmf, ?Hmr); reflexivity.
 Qed.
 
-Lemma sel_idle_reset nl mfl C full :
-  bselect (mkB (mkL nl mfl 0 C full (length C) []) (mkR 0 1 []) false)
-  = SelBlock (mkB (mkL nl nl 0 C true 0 []) (mkR 1 1 []) true).
+Lemma sel_idle_reset nl nr mfl C full mtr :
+  mtr <> 0 ->
+  bselect (mkB (mkL nl mfl 0 C full (length C) []) (mkR nr 0 mtr []) false)
+  = SelBlock (mkB (mkL nl nl 0 C true 0 []) (mkR nr nr mtr []) true).
 Proof.
-  unfold bselect. destruct full; bgo ltac:(rewrite ?Nat.leb_refl); reflexivity.
+  intros Hmr. apply Nat.eqb_neq in Hmr. unfold bselect.
+  destruct full; bgo ltac:(rewrite ?Nat.leb_refl, ?Hmr); reflexivity.
 Qed.
 
-Lemma sel_reset_recv nl C b mf' mt' data :
-  process_items BR BREnd false 1 1 b = (mf', mt', data) ->
-  bselect (mkB (mkL nl nl 0 C true 0 []) (mkR 1 1 [(0, b)]) true)
-  = SelMsg (mkB (mkL nl nl 0 C true 0 []) (mkR mf' mt' []) false) (nl + 0, data).
+(** first message of a round: [b_first] is cleared only by a batch that is not all-Terminate *)
+Lemma sel_reset_recv nl nr C mfr mtr s b mf' mt' data :
+  mfr <> 0 -> mtr <> 0 ->
+  process_items BR BREnd false mfr mtr b = (mf', mt', data) ->
+  bselect (mkB (mkL nl nl 0 C true 0 []) (mkR nr mfr mtr [(s, b)]) true)
+  = SelMsg (mkB (mkL nl nl 0 C true 0 []) (mkR nr mf' mt' []) (negb (has_non_term b))) (nl + s, data).
 Proof.
-  intros Hp. unfold bselect. bgo ltac:(rewrite ?Hp). reflexivity.
+  intros Hmf Hmr Hp. apply Nat.eqb_neq in Hmf, Hmr. unfold bselect.
+  bgo ltac:(rewrite ?Hp, ?Hmf, ?Hmr). reflexivity.
 Qed.
 
-Lemma sel_play nl ml C k mfr :
-  k < length C ->
-  bselect (mkB (mkL nl ml 0 C true k []) (mkR mfr 1 []) false)
-  = SelMsg (mkB (mkL nl (if length C <=? S k then 0 else ml) 0 C true (S k) []) (mkR mfr 1 []) false)
+(** still waiting for the first message of the round *)
+Lemma sel_reset_block nl nr C mfr mtr :
+  mfr <> 0 -> mtr <> 0 ->
+  bselect (mkB (mkL nl nl 0 C true 0 []) (mkR nr mfr mtr []) true)
+  = SelBlock (mkB (mkL nl nl 0 C true 0 []) (mkR nr mfr mtr []) true).
+Proof.
+  intros Hmf Hmr. apply Nat.eqb_neq in Hmf, Hmr. unfold bselect.
+  bgo ltac:(rewrite ?Hmf, ?Hmr). reflexivity.
+Qed.
+
+Lemma sel_play nl nr ml C k mfr mtr :
+  mtr <> 0 -> k < length C ->
+  bselect (mkB (mkL nl ml 0 C true k []) (mkR nr mfr mtr []) false)
+  = SelMsg (mkB (mkL nl (if length C <=? S k then 0 else ml) 0 C true (S k) []) (mkR nr mfr mtr []) false)
            (nth k C (0, [])).
 Proof.
-  intros Hk. apply Nat.leb_gt in Hk. unfold bselect.
-  destruct (mfr =? 0) eqn:Hmf; bgo ltac:(rewrite ?Hk, ?Hmf); reflexivity.
+  intros Hmr Hk. apply Nat.leb_gt in Hk. apply Nat.eqb_neq in Hmr. unfold bselect.
+  destruct (mfr =? 0) eqn:Hmf; bgo ltac:(rewrite ?Hk, ?Hmf, ?Hmr); reflexivity.
 Qed.
 
-Lemma sel_final nl C :
+Lemma sel_final nl nr C ml k mfr f :
   nl <> 0 ->
-  bselect (mkB (mkL nl nl 0 C true 0 []) (mkR 1 0 []) false)
-  = SelMsg (mkB (mkL nl nl 0 C true 0 []) (mkR 1 0 []) false) (0, repeat Terminate nl).
+  bselect (mkB (mkL nl ml 0 C true k []) (mkR nr mfr 0 []) f)
+  = SelMsg (mkB (mkL nl ml 0 C true k []) (mkR nr mfr 0 []) f) (0, repeat Terminate nl).
 Proof.
   intros Hn. apply Nat.eqb_neq in Hn. unfold bselect. bgo ltac:(rewrite ?Hn). reflexivity.
 Qed.
@@ -426,48 +443,51 @@ Lemma dm_msg f (b b1 : bst) m :
   bdrain_msgs (S f) b = let '(b2, ms) := bdrain_msgs f b1 in (b2, m :: ms).
 Proof. intros H. cbn [bdrain_msgs]. now rewrite H. Qed.
 
-(** state right after a round reset that found nothing to receive *)
-Definition Rst (nl : nat) (C : list msg) : bst := mkB (mkL nl nl 0 C true 0 []) (mkR 1 1 []) true.
+(** state right after a round reset, waiting for the round's first message; [mtr] is the
+    number of loop-side Terminates still missing *)
+Definition Rst (nl nr : nat) (C : list msg) (mtr : nat) : bst :=
+  mkB (mkL nl nl 0 C true 0 []) (mkR nr nr mtr []) true.
 (** where a drain stops once the queues are empty and the cache (if any) has been replayed *)
-Definition after_idle (nl mfl mtl : nat) (C : list msg) (full : bool) (mfr : nat) : bst :=
-  if (mtl =? 0) && (mfr =? 0) then Rst nl C
-  else mkB (mkL nl mfl mtl C full (length C) []) (mkR mfr 1 []) false.
+Definition after_idle (nl nr mfl mtl : nat) (C : list msg) (full : bool) (mfr mtr : nat) : bst :=
+  if (mtl =? 0) && (mfr =? 0) then Rst nl nr C mtr
+  else mkB (mkL nl mfl mtl C full (length C) []) (mkR nr mfr mtr []) false.
 
-Lemma dm_idle nl mfl mtl C full mfr fuel :
-  1 <= fuel ->
-  bdrain_msgs fuel (mkB (mkL nl mfl mtl C full (length C) []) (mkR mfr 1 []) false)
-  = (after_idle nl mfl mtl C full mfr, []).
+Lemma dm_idle nl nr mfl mtl C full mfr mtr fuel :
+  mtr <> 0 -> 1 <= fuel ->
+  bdrain_msgs fuel (mkB (mkL nl mfl mtl C full (length C) []) (mkR nr mfr mtr []) false)
+  = (after_idle nl nr mfl mtl C full mfr mtr, []).
 Proof.
-  intros Hf. destruct fuel as [|f]; [lia|]. unfold after_idle.
+  intros Hmr Hf. destruct fuel as [|f]; [lia|]. unfold after_idle.
   destruct ((mtl =? 0) && (mfr =? 0)) eqn:Hc.
   - apply andb_true_iff in Hc as [H1 H2]. apply Nat.eqb_eq in H1, H2. subst.
-    apply dm_block. apply sel_idle_reset.
+    apply dm_block. now apply sel_idle_reset.
   - apply dm_block. now apply sel_idle_block.
 Qed.
 
 Lemma bfuel_ge (b : bst) : 4 <= bfuel b.
 Proof. unfold bfuel. lia. Qed.
 
-Lemma r1_left_step nl mfl mtl C mfr s b mf' mt' data fuel :
-  mtl <> 0 -> process_items BL BLEnd true mfl mtl b = (mf', mt', data) -> 2 <= fuel ->
-  bdrain_msgs fuel (bpush (mkB (mkL nl mfl mtl C false (length C) []) (mkR mfr 1 []) false) (DL s b))
-  = (after_idle nl mf' mt' (C ++ [(s, data)]) false mfr, [(s, data)]).
+Lemma r1_left_step nl nr mfl mtl C mfr mtr s b mf' mt' data fuel :
+  mtl <> 0 -> mtr <> 0 -> process_items BL BLEnd true mfl mtl b = (mf', mt', data) -> 2 <= fuel ->
+  bdrain_msgs fuel (bpush (mkB (mkL nl mfl mtl C false (length C) []) (mkR nr mfr mtr []) false) (DL s b))
+  = (after_idle nl nr mf' mt' (C ++ [(s, data)]) false mfr mtr, [(s, data)]).
 Proof.
-  intros Hmt Hp Hf. destruct fuel as [|f]; [lia|].
-  change (bpush _ _) with (mkB (mkL nl mfl mtl C false (length C) [(s, b)]) (mkR mfr 1 []) false).
-  rewrite (dm_msg _ _ _ _ (sel_r1_left _ _ _ _ _ _ _ _ _ _ Hmt Hp)).
-  rewrite dm_idle by lia. reflexivity.
+  intros Hmt Hmr Hp Hf. destruct fuel as [|f]; [lia|].
+  change (bpush _ _) with (mkB (mkL nl mfl mtl C false (length C) [(s, b)]) (mkR nr mfr mtr []) false).
+  rewrite (dm_msg _ _ _ _ (sel_r1_left _ _ _ _ _ _ _ _ _ _ _ _ Hmt Hmr Hp)).
+  rewrite dm_idle by (assumption || lia). reflexivity.
 Qed.
 
-Lemma right_step nl mfl mtl C full b mf' data fuel :
-  process_items BR BREnd false 1 1 b = (mf', 1, data) -> 2 <= fuel ->
-  bdrain_msgs fuel (bpush (mkB (mkL nl mfl mtl C full (length C) []) (mkR 1 1 []) false) (DR 0 b))
-  = (after_idle nl mfl mtl C full mf', [(nl + 0, data)]).
+Lemma right_step nl nr mfl mtl C full mfr mtr s b mf' data fuel :
+  mfr <> 0 -> mtr <> 0 ->
+  process_items BR BREnd false mfr mtr b = (mf', mtr, data) -> 2 <= fuel ->
+  bdrain_msgs fuel (bpush (mkB (mkL nl mfl mtl C full (length C) []) (mkR nr mfr mtr []) false) (DR s b))
+  = (after_idle nl nr mfl mtl C full mf' mtr, [(nl + s, data)]).
 Proof.
-  intros Hp Hf. destruct fuel as [|f]; [lia|].
-  change (bpush _ _) with (mkB (mkL nl mfl mtl C full (length C) []) (mkR 1 1 [(0, b)]) false).
-  rewrite (dm_msg _ _ _ _ (sel_right_recv _ _ _ _ _ _ _ _ _ Hp)).
-  rewrite dm_idle by lia. reflexivity.
+  intros Hmf Hmr Hp Hf. destruct fuel as [|f]; [lia|].
+  change (bpush _ _) with (mkB (mkL nl mfl mtl C full (length C) []) (mkR nr mfr mtr [(s, b)]) false).
+  rewrite (dm_msg _ _ _ _ (sel_right_recv _ _ _ _ _ _ _ _ _ _ _ _ _ Hmf Hmr Hp)).
+  rewrite dm_idle by (assumption || lia). reflexivity.
 Qed.
 
 Lemma skipn_nth {A} (d : A) : forall k (l : list A), k < length l -> skipn k l = nth k l d :: skipn (S k) l.
@@ -479,18 +499,18 @@ Qed.
 
 (** the replay lemma: from pointer [k] the whole rest of the cache is returned, in order,
     each cached message exactly once, and then the receiver is idle *)
-Lemma play_all nl C mfr : forall n k ml fuel,
+Lemma play_all nl nr C mfr mtr : mtr <> 0 -> forall n k ml fuel,
   k + S n = length C -> S n + 1 <= fuel ->
-  bdrain_msgs fuel (mkB (mkL nl ml 0 C true k []) (mkR mfr 1 []) false)
-  = (after_idle nl 0 0 C true mfr, skipn k C).
+  bdrain_msgs fuel (mkB (mkL nl ml 0 C true k []) (mkR nr mfr mtr []) false)
+  = (after_idle nl nr 0 0 C true mfr mtr, skipn k C).
 Proof.
-  induction n as [|n IH]; intros k ml fuel Hk Hf; (destruct fuel as [|f]; [lia|]).
-  - rewrite (dm_msg _ _ _ _ (sel_play nl ml C k mfr ltac:(lia))).
+  intros Hmr. induction n as [|n IH]; intros k ml fuel Hk Hf; (destruct fuel as [|f]; [lia|]).
+  - rewrite (dm_msg _ _ _ _ (sel_play nl nr ml C k mfr mtr Hmr ltac:(lia))).
     assert (Hle : (length C <=? S k) = true) by (apply Nat.leb_le; lia). rewrite Hle.
-    replace (S k) with (length C) by lia. rewrite dm_idle by lia.
+    replace (S k) with (length C) by lia. rewrite dm_idle by (assumption || lia).
     rewrite (skipn_nth ((0, []) : msg) k C) by lia. replace (S k) with (length C) by lia.
     now rewrite skipn_all.
-  - rewrite (dm_msg _ _ _ _ (sel_play nl ml C k mfr ltac:(lia))).
+  - rewrite (dm_msg _ _ _ _ (sel_play nl nr ml C k mfr mtr Hmr ltac:(lia))).
     rewrite (IH (S k)) by lia. rewrite (skipn_nth ((0, []) : msg) k C) by lia. reflexivity.
 Qed.
 
@@ -498,30 +518,49 @@ Lemma bfuel_push_R nl ml mt C full k (r : @side Z Z Z) f d :
   2 * length C + 4 <= bfuel (bpush (mkB (mkL nl ml mt C full k []) r f) d).
 Proof. destruct d; unfold bfuel; cbn; lia. Qed.
 
-Lemma later_first nl C b mf' data fuel :
-  process_items BR BREnd false 1 1 b = (mf', 1, data) -> C <> [] -> length C + 2 <= fuel ->
-  bdrain_msgs fuel (bpush (Rst nl C) (DR 0 b)) = (after_idle nl 0 0 C true mf', (nl + 0, data) :: C).
+(** first message of a later round that carries something: the cache is replayed right after it *)
+Lemma later_first nl nr C mtr s b mf' data fuel :
+  nr <> 0 -> mtr <> 0 -> has_non_term b = true ->
+  process_items BR BREnd false nr mtr b = (mf', mtr, data) -> C <> [] -> length C + 2 <= fuel ->
+  bdrain_msgs fuel (bpush (Rst nl nr C mtr) (DR s b))
+  = (after_idle nl nr 0 0 C true mf' mtr, (nl + s, data) :: C).
 Proof.
-  intros Hp HC Hf. destruct fuel as [|f]; [lia|].
-  change (bpush _ _) with (mkB (mkL nl nl 0 C true 0 []) (mkR 1 1 [(0, b)]) true).
-  rewrite (dm_msg _ _ _ _ (sel_reset_recv _ _ _ _ _ _ Hp)).
+  intros Hnr Hmr Hnt Hp HC Hf. destruct fuel as [|f]; [lia|].
+  change (bpush _ _) with (mkB (mkL nl nl 0 C true 0 []) (mkR nr nr mtr [(s, b)]) true).
+  rewrite (dm_msg _ _ _ _ (sel_reset_recv _ _ _ _ _ _ _ _ _ _ Hnr Hmr Hp)).
+  rewrite Hnt. cbn [negb].
   destruct C as [|c C']; [congruence|].
-  rewrite (play_all nl (c :: C') mf' (length C') 0) by (cbn [length] in *; lia).
+  rewrite (play_all nl nr (c :: C') mf' mtr Hmr (length C') 0) by (cbn [length] in *; lia).
   reflexivity.
 Qed.
 
-Lemma final_step nl C fuel :
-  nl <> 0 -> 2 <= fuel ->
-  exists b' rest, bdrain_msgs fuel (bpush (Rst nl C) (DR 0 [Terminate]))
-                  = (b', (nl + 0, [Terminate]) :: (0, repeat Terminate nl) :: rest).
+(** a first message without content (an empty batch, or Terminates while more are missing):
+    no replay, the receiver keeps waiting for the round's first message *)
+Lemma later_skip nl nr C mtr s b mt' data fuel :
+  nr <> 0 -> mtr <> 0 -> mt' <> 0 -> has_non_term b = false ->
+  process_items BR BREnd false nr mtr b = (nr, mt', data) -> 2 <= fuel ->
+  bdrain_msgs fuel (bpush (Rst nl nr C mtr) (DR s b)) = (Rst nl nr C mt', [(nl + s, data)]).
 Proof.
-  intros Hn Hf. destruct fuel as [|[|f]]; [lia|lia|].
-  change (bpush _ _) with (mkB (mkL nl nl 0 C true 0 []) (mkR 1 1 [(0, [Terminate])]) true).
-  rewrite (dm_msg _ _ _ _ (sel_reset_recv _ _ _ _ _ _ (pi_term BR BREnd false 1 1))).
-  cbn [pred]. rewrite (dm_msg _ _ _ _ (sel_final nl C Hn)).
-  destruct (bdrain_msgs f _) as [b' rest]. eauto.
+  intros Hnr Hmr Hmr' Hnt Hp Hf. destruct fuel as [|[|f]]; [lia|lia|].
+  change (bpush _ _) with (mkB (mkL nl nl 0 C true 0 []) (mkR nr nr mtr [(s, b)]) true).
+  rewrite (dm_msg _ _ _ _ (sel_reset_recv _ _ _ _ _ _ _ _ _ _ Hnr Hmr Hp)).
+  rewrite Hnt. cbn [negb].
+  rewrite (dm_block _ _ _ (sel_reset_block nl nr C nr mt' Hnr Hmr')). reflexivity.
 Qed.
 
+(** the last missing Terminate of the loop side: the synthesised Terminates follow at once *)
+Lemma final_step nl nr C s fuel :
+  nl <> 0 -> nr <> 0 -> 2 <= fuel ->
+  exists b' rest, bdrain_msgs fuel (bpush (Rst nl nr C 1) (DR s [Terminate]))
+                  = (b', (nl + s, [Terminate]) :: (0, repeat Terminate nl) :: rest).
+Proof.
+  intros Hn Hnr Hf. destruct fuel as [|[|f]]; [lia|lia|].
+  change (bpush _ _) with (mkB (mkL nl nl 0 C true 0 []) (mkR nr nr 1 [(s, [Terminate])]) true).
+  rewrite (dm_msg _ _ _ _ (sel_reset_recv _ _ _ _ _ _ _ _ _ _ Hnr (Nat.neq_succ_0 0)
+                             (pi_term BR BREnd false nr 1))).
+  cbn [pred]. rewrite (dm_msg _ _ _ _ (sel_final nl nr C nl 0 nr _ Hn)).
+  destruct (bdrain_msgs f _) as [b' rest]. eauto.
+Qed.
 (** * Part F: what the processed messages contain *)
 Definition piece (X : list (elem (bin Z Z))) (nf : nat) (ld rd : list (elem Z)) (bl br : nat) : Prop :=
   forallb okel X = true /\ cntF X = nf /\ Lp X = ld /\ Rp X = rd /\
@@ -598,127 +637,23 @@ Proof.
   - reflexivity.
 Qed.
 
-Lemma piece_closingR p :
+Lemma piece_closingR p (z : bool) :
   plain_batch p = true ->
-  piece (map (emap BR) p ++ [Item BREnd] ++ [FAR]) 1 [] (filter is_data (p ++ [FAR])) 0 1.
+  piece (map (emap BR) p ++ (if z then [Item BREnd] else []) ++ [FAR]) 1 []
+        (filter is_data (p ++ [FAR])) 0 (if z then 1 else 0).
 Proof.
   intros Hp. rewrite filter_data_closing.
   eapply piece_eq.
   - apply piece_app; [apply piece_plainR; exact Hp|].
-    assert (H : piece ([Item BREnd] ++ [FAR]) 1 [] [] 0 1) by (repeat split; reflexivity).
+    assert (H : piece ((if z then [Item BREnd] else []) ++ [FAR]) 1 [] [] 0 (if z then 1 else 0))
+      by (destruct z; repeat split; reflexivity).
     exact H.
   - reflexivity.
   - reflexivity.
   - now rewrite app_nil_r.
   - reflexivity.
-  - reflexivity.
+  - destruct z; reflexivity.
 Qed.
-
-(** * Part G: the later rounds of the loop side *)
-Definition pdata (b : list (elem Z)) : list (elem (bin Z Z)) :=
-  snd (process_items BR BREnd false 1 1 b).
-Definition rmsg (nl : nat) (b : list (elem Z)) : msg := (nl + 0, pdata b).
-Definition Mid (nl : nat) (C : list msg) : bst :=
-  mkB (mkL nl 0 0 C true (length C) []) (mkR 1 1 []) false.
-
-Lemma pdata_plain b :
-  plain_batch b = true -> process_items BR BREnd false 1 1 b = (1, 1, pdata b) /\ pdata b = map (emap BR) b.
-Proof. intros Hp. unfold pdata. rewrite pi_plain by assumption. auto. Qed.
-
-Lemma pdata_closing b :
-  closing_batch b = true ->
-  exists p, b = p ++ [FAR] /\ plain_batch p = true /\
-            process_items BR BREnd false 1 1 b = (0, 1, pdata b) /\
-            pdata b = map (emap BR) p ++ [Item BREnd] ++ [FAR].
-Proof.
-  intros Hc. destruct (closing_batch_inv _ Hc) as (p & -> & Hp). exists p.
-  unfold pdata. rewrite pi_closing by assumption. cbn [pred Nat.eqb snd]. auto.
-Qed.
-
-Lemma loop_round_inv b bs :
-  loop_round_ok (b :: bs) = true ->
-  (bs = [] /\ closing_batch b = true) \/
-  (bs <> [] /\ plain_batch b = true /\ loop_round_ok bs = true).
-Proof.
-  destruct bs as [|b' bs]; cbn [loop_round_ok]; intros H.
-  - left. apply andb_true_iff in H as [H1 _]. auto.
-  - right. apply andb_true_iff in H as [H1 H2]. apply andb_true_iff in H1 as [H1 _].
-    split; [discriminate|auto].
-Qed.
-
-Lemma mid_rounds nl C : forall bs,
-  loop_round_ok bs = true ->
-  brun_msgs (Mid nl C) (map (DR 0) bs) = (Rst nl C, map (rmsg nl) bs).
-Proof.
-  induction bs as [|b bs IH]; intros Hok; [discriminate|].
-  cbn [map brun_msgs]. unfold Mid at 1 2.
-  destruct (loop_round_inv _ _ Hok) as [[-> Hc] | (Hne & Hp & Hok')].
-  - destruct (pdata_closing _ Hc) as (p & _ & _ & Hpi & _).
-    rewrite (right_step _ _ _ _ _ _ _ _ _ Hpi) by (etransitivity; [|apply bfuel_ge]; lia).
-    cbn [map brun_msgs]. reflexivity.
-  - destruct (pdata_plain _ Hp) as [Hpi _].
-    rewrite (right_step _ _ _ _ _ _ _ _ _ Hpi) by (etransitivity; [|apply bfuel_ge]; lia).
-    change (after_idle nl 0 0 C true 1) with (Mid nl C). rewrite (IH Hok'). reflexivity.
-Qed.
-
-Lemma later_round nl C b bs :
-  C <> [] -> loop_round_ok (b :: bs) = true ->
-  brun_msgs (Rst nl C) (map (DR 0) (b :: bs)) = (Rst nl C, rmsg nl b :: C ++ map (rmsg nl) bs).
-Proof.
-  intros HC Hok. cbn [map brun_msgs].
-  assert (Hfuel : length C + 2 <= bfuel (bpush (Rst nl C) (DR 0 b))).
-  { pose proof (bfuel_push_R nl nl 0 C true 0 (mkR 1 1 []) true (DR 0 b)) as H.
-    unfold Rst. lia. }
-  destruct (loop_round_inv _ _ Hok) as [[-> Hc] | (Hne & Hp & Hok')].
-  - destruct (pdata_closing _ Hc) as (p & _ & _ & Hpi & _).
-    rewrite (later_first _ _ _ _ _ _ Hpi HC Hfuel). cbn [map brun_msgs]. reflexivity.
-  - destruct (pdata_plain _ Hp) as [Hpi _].
-    rewrite (later_first _ _ _ _ _ _ Hpi HC Hfuel).
-    change (after_idle nl 0 0 C true 1) with (Mid nl C). rewrite (mid_rounds nl C bs Hok').
-    reflexivity.
-Qed.
-
-Lemma cflat_rmsgs nl bs : cflat (map (rmsg nl) bs) = concat (map pdata bs).
-Proof. unfold cflat. rewrite map_map. reflexivity. Qed.
-
-Lemma mid_piece : forall bs,
-  loop_round_ok bs = true ->
-  piece (concat (map pdata bs)) 1 [] (flat_map (filter is_data) bs) 0 1 /\
-  endsF (concat (map pdata bs)).
-Proof.
-  induction bs as [|b bs IH]; intros Hok; [discriminate|].
-  cbn [map concat flat_map].
-  destruct (loop_round_inv _ _ Hok) as [[-> Hc] | (Hne & Hp & Hok')].
-  - destruct (pdata_closing _ Hc) as (p & -> & Hp & _ & ->). cbn [map concat flat_map].
-    rewrite !app_nil_r. split; [apply piece_closingR; exact Hp|].
-    exists (map (emap BR) p ++ [Item BREnd]). now rewrite <- app_assoc.
-  - destruct (pdata_plain _ Hp) as [_ ->]. destruct (IH Hok') as [IH1 IH2].
-    split; [|apply endsF_app_r; exact IH2].
-    apply (piece_app _ _ 0 1 [] [] _ _ 0 0 0 1); [apply piece_plainR; exact Hp|exact IH1].
-Qed.
-
-(** a later round as a whole: the loop side's first batch, the replayed cache, the rest *)
-Lemma round_piece nl C ld b bs :
-  piece (cflat C) nl ld [] 1 0 -> endsF (cflat C) -> loop_round_ok (b :: bs) = true ->
-  piece (cflat (rmsg nl b :: C ++ map (rmsg nl) bs)) (S nl) ld (flat_map (filter is_data) (b :: bs)) 1 1 /\
-  endsF (cflat (rmsg nl b :: C ++ map (rmsg nl) bs)).
-Proof.
-  intros HC HE Hok.
-  change (rmsg nl b :: C ++ map (rmsg nl) bs) with ([rmsg nl b] ++ C ++ map (rmsg nl) bs).
-  rewrite !cflat_app, cflat_rmsgs. unfold cflat at 1 3. cbn [map concat rmsg snd flat_map].
-  rewrite !app_nil_r.
-  destruct (loop_round_inv _ _ Hok) as [[-> Hc] | (Hne & Hp & Hok')].
-  - destruct (pdata_closing _ Hc) as (p & -> & Hp & _ & ->). cbn [map concat flat_map].
-    rewrite !app_nil_r. split; [|apply endsF_app_r; exact HE].
-    eapply piece_eq; [apply piece_app; [apply piece_closingR; exact Hp|exact HC]| | | | | ];
-      try reflexivity; try lia. now rewrite app_nil_r.
-  - destruct (pdata_plain _ Hp) as [_ ->]. destruct (mid_piece bs Hok') as [M1 M2].
-    split; [|apply endsF_app_r, endsF_app_r; exact M2].
-    eapply piece_eq; [apply piece_app; [apply piece_plainR; exact Hp|
-                      apply piece_app; [exact HC|exact M1]]| | | | | ];
-      try reflexivity; try lia. now rewrite app_nil_r.
-Qed.
-
 (** * Part H: bookkeeping of the first round: what is still to be delivered *)
 Fixpoint sumL (f : list (elem Z) -> nat) (ds : list del) : nat :=
   match ds with
@@ -779,22 +714,80 @@ Proof.
       (Nat.ltb_spec s (S start + len)), (Nat.ltb_spec s (start + S len)); cbn [andb]; lia.
 Qed.
 
-Lemma sumL_partition f nl : forall ds,
-  senders_ok nl ds = true ->
+
+(** ** General shape: [nr] loop-side replicas *)
+Definition right_of (s : nat) (ds : list del) : list (list (elem Z)) :=
+  flat_map (fun d => match d with DR s' b => if Nat.eqb s s' then [b] else [] | _ => [] end) ds.
+Definition senders_ok_n (nl nr : nat) (ds : list del) : bool :=
+  forallb (fun d => match d with DL s _ => Nat.ltb s nl | DR s _ => Nat.ltb s nr end) ds.
+Definition no_left (ds : list del) : bool :=
+  forallb (fun d => match d with DL _ _ => false | DR _ _ => true end) ds.
+(** one later round: an interleaving of the [nr] loop-side senders' batches of that round *)
+Definition later_round_ok (nr : nat) (r : list del) : bool :=
+  no_left r && senders_ok_n 0 nr r && forallb (fun s => loop_round_ok (right_of s r)) (seq 0 nr).
+(** [round1]: an arbitrary interleaving of all side-input deliveries with the first round of
+    all loop-side senders; [later]: the later rounds; [terms]: the senders of the final
+    [Terminate] deliveries, in delivery order *)
+Definition c11_shape_n (nl nr : nat) (round1 : list del) (later : list (list del)) (terms : list nat) : bool :=
+  senders_ok_n nl nr round1 &&
+  forallb (fun s => side_sender_ok (left_of s round1)) (seq 0 nl) &&
+  forallb (fun s => loop_round_ok (right_of s round1)) (seq 0 nr) &&
+  forallb (later_round_ok nr) later &&
+  Nat.eqb (length terms) nr && forallb (fun s => Nat.ltb s nr) terms.
+Definition c11_deliveries_n (round1 : list del) (later : list (list del)) (terms : list nat) : list del :=
+  round1 ++ concat later ++ map (fun s => DR s [Terminate]) terms.
+
+Lemma sumR_right_of_le f s ds : sumB f (right_of s ds) <= sumR f ds.
+Proof.
+  unfold right_of. induction ds as [|[s' b|s' b] ds IH]; cbn [flat_map sumR]; [cbn; lia|exact IH|].
+  rewrite sumB_app. destruct (s =? s'); cbn [sumB]; lia.
+Qed.
+
+Lemma sumL_partition f nl nr : forall ds,
+  senders_ok_n nl nr ds = true ->
   sumL f ds = list_sum (map (fun s => sumB f (left_of s ds)) (seq 0 nl)).
 Proof.
   induction ds as [|[s b|s b] ds IH]; intros Hs.
   - cbn [sumL]. induction (seq 0 nl) as [|x l IHl]; [reflexivity|].
     cbn [map]. rewrite list_sum_cons. now rewrite <- IHl.
-  - unfold senders_ok in *. cbn [forallb] in Hs. apply andb_true_iff in Hs as [H1 H2].
+  - unfold senders_ok_n in *. cbn [forallb] in Hs. apply andb_true_iff in Hs as [H1 H2].
     apply Nat.ltb_lt in H1. cbn [sumL]. rewrite (IH H2).
     transitivity (list_sum (map (fun s' => (if s' =? s then f b else 0) + sumB f (left_of s' ds)) (seq 0 nl))).
     + rewrite list_sum_map_add, list_sum_indicator.
       destruct (Nat.leb_spec 0 s), (Nat.ltb_spec s (0 + nl)); cbn [andb]; lia.
     + f_equal. apply map_ext. intros s'. unfold left_of at 2. cbn [flat_map].
       rewrite sumB_app. fold (left_of s' ds). destruct (s' =? s); cbn [sumB]; lia.
-  - unfold senders_ok in *. cbn [forallb] in Hs. apply andb_true_iff in Hs as [H1 H2].
+  - unfold senders_ok_n in *. cbn [forallb] in Hs. apply andb_true_iff in Hs as [H1 H2].
     cbn [sumL]. rewrite (IH H2). reflexivity.
+Qed.
+
+Lemma sumR_partition f nl nr : forall ds,
+  senders_ok_n nl nr ds = true ->
+  sumR f ds = list_sum (map (fun s => sumB f (right_of s ds)) (seq 0 nr)).
+Proof.
+  induction ds as [|[s b|s b] ds IH]; intros Hs.
+  - cbn [sumR]. induction (seq 0 nr) as [|x l IHl]; [reflexivity|].
+    cbn [map]. rewrite list_sum_cons. now rewrite <- IHl.
+  - unfold senders_ok_n in *. cbn [forallb] in Hs. apply andb_true_iff in Hs as [H1 H2].
+    cbn [sumR]. rewrite (IH H2). reflexivity.
+  - unfold senders_ok_n in *. cbn [forallb] in Hs. apply andb_true_iff in Hs as [H1 H2].
+    apply Nat.ltb_lt in H1. cbn [sumR]. rewrite (IH H2).
+    transitivity (list_sum (map (fun s' => (if s' =? s then f b else 0) + sumB f (right_of s' ds)) (seq 0 nr))).
+    + rewrite list_sum_map_add, list_sum_indicator.
+      destruct (Nat.leb_spec 0 s), (Nat.ltb_spec s (0 + nr)); cbn [andb]; lia.
+    + f_equal. apply map_ext. intros s'. unfold right_of at 2. cbn [flat_map].
+      rewrite sumB_app. fold (right_of s' ds). destruct (s' =? s); cbn [sumB]; lia.
+Qed.
+
+Lemma loop_round_inv b bs :
+  loop_round_ok (b :: bs) = true ->
+  (bs = [] /\ closing_batch b = true) \/
+  (bs <> [] /\ plain_batch b = true /\ loop_round_ok bs = true).
+Proof.
+  destruct bs as [|b' bs]; cbn [loop_round_ok]; intros H.
+  - left. apply andb_true_iff in H as [H1 _]. auto.
+  - right. apply andb_true_iff in H as [H1 H2]. apply andb_true_iff in H1 as [H1 _].
+    split; [discriminate|auto].
 Qed.
 
 Lemma closing_counts (b : list (elem Z)) : closing_batch b = true -> cntF b = 1 /\ cntT b = 0.
@@ -841,25 +834,25 @@ Qed.
 Definition sender_rest (bs : list (list (elem Z))) : Prop :=
   side_sender_ok bs = true \/ bs = [[Terminate]] \/ bs = [].
 Definition right_rest (bs : list (list (elem Z))) : Prop := loop_round_ok bs = true \/ bs = [].
-Definition rest_ok (nl : nat) (rest : list del) : Prop :=
-  senders_ok nl rest = true /\ (forall s, s < nl -> sender_rest (left_of s rest)) /\
-  right_rest (right_all rest).
+Definition rest_ok (nl nr : nat) (rest : list del) : Prop :=
+  senders_ok_n nl nr rest = true /\ (forall s, s < nl -> sender_rest (left_of s rest)) /\
+  (forall s, s < nr -> right_rest (right_of s rest)).
 
-Lemma rest_ok_DL nl s b rest :
-  rest_ok nl (DL s b :: rest) ->
-  rest_ok nl rest /\
+Lemma rest_ok_DL nl nr s b rest :
+  rest_ok nl nr (DL s b :: rest) ->
+  rest_ok nl nr rest /\
   ((plain_batch b = true /\ 1 <= sumL cntT rest /\ 1 <= sumL cntF rest) \/
    (closing_batch b = true /\ 1 <= sumL cntT rest) \/
    b = [Terminate]).
 Proof.
-  intros (Hs & Hl & Hr). unfold senders_ok in Hs. cbn [forallb] in Hs.
+  intros (Hs & Hl & Hr). unfold senders_ok_n in Hs. cbn [forallb] in Hs.
   apply andb_true_iff in Hs as [Hlt Hs]. apply Nat.ltb_lt in Hlt.
   pose proof (Hl s Hlt) as Hme. unfold left_of in Hme. cbn [flat_map] in Hme.
   rewrite Nat.eqb_refl in Hme. cbn [app] in Hme. fold (left_of s rest) in Hme.
   assert (Hothers : forall s', s' < nl -> s' <> s -> sender_rest (left_of s' rest)).
   { intros s' Hs' Hne. specialize (Hl s' Hs'). unfold left_of in Hl. cbn [flat_map] in Hl.
     apply Nat.eqb_neq in Hne. rewrite Hne in Hl. exact Hl. }
-  assert (Hmk : sender_rest (left_of s rest) -> rest_ok nl rest).
+  assert (Hmk : sender_rest (left_of s rest) -> rest_ok nl nr rest).
   { intros Hnew. split; [exact Hs|]. split; [|exact Hr].
     intros s' Hs'. destruct (Nat.eq_dec s' s) as [->|Hne]; [exact Hnew|now apply Hothers]. }
   pose proof (sumL_left_of_le cntT s rest) as HleT.
@@ -873,24 +866,31 @@ Proof.
   - split; [apply Hmk; right; right; assumption|]. right; right. reflexivity.
 Qed.
 
-Lemma rest_ok_DR nl s b rest :
-  rest_ok nl (DR s b :: rest) ->
-  s = 0 /\ rest_ok nl rest /\
-  ((plain_batch b = true /\ sumR cntF rest = 1) \/ (closing_batch b = true /\ sumR cntF rest = 0)).
+Lemma rest_ok_DR nl nr s b rest :
+  rest_ok nl nr (DR s b :: rest) ->
+  s < nr /\ rest_ok nl nr rest /\
+  ((plain_batch b = true /\ 1 <= sumR cntF rest) \/ closing_batch b = true).
 Proof.
-  intros (Hs & Hl & Hr). unfold senders_ok in Hs. cbn [forallb] in Hs.
-  apply andb_true_iff in Hs as [Hz Hs]. apply Nat.eqb_eq in Hz. split; [exact Hz|].
-  unfold right_all in Hr. cbn [flat_map app] in Hr. fold (right_all rest) in Hr.
-  rewrite sumR_right_all.
-  destruct Hr as [Hok | Heq]; [|discriminate].
+  intros (Hs & Hl & Hr). unfold senders_ok_n in Hs. cbn [forallb] in Hs.
+  apply andb_true_iff in Hs as [Hlt Hs]. apply Nat.ltb_lt in Hlt. split; [exact Hlt|].
+  pose proof (Hr s Hlt) as Hme. unfold right_of in Hme. cbn [flat_map] in Hme.
+  rewrite Nat.eqb_refl in Hme. cbn [app] in Hme. fold (right_of s rest) in Hme.
+  assert (Hothers : forall s', s' < nr -> s' <> s -> right_rest (right_of s' rest)).
+  { intros s' Hs' Hne. specialize (Hr s' Hs'). unfold right_of in Hr. cbn [flat_map] in Hr.
+    apply Nat.eqb_neq in Hne. rewrite Hne in Hr. exact Hr. }
+  assert (Hmk : right_rest (right_of s rest) -> rest_ok nl nr rest).
+  { intros Hnew. split; [exact Hs|]. split; [exact Hl|].
+    intros s' Hs'. destruct (Nat.eq_dec s' s) as [->|Hne]; [exact Hnew|now apply Hothers]. }
+  pose proof (sumR_right_of_le cntF s rest) as HleF.
+  destruct Hme as [Hok | Heq]; [|discriminate].
   destruct (loop_round_inv _ _ Hok) as [[Heq Hc] | (Hne & Hp & Hok')].
-  - split; [|right; rewrite Heq; auto].
-    split; [exact Hs|]. split; [exact Hl|]. right. exact Heq.
-  - split; [|left; split; [exact Hp|now apply loop_round_sums]].
-    split; [exact Hs|]. split; [exact Hl|]. left. exact Hok'.
+  - split; [apply Hmk; right; exact Heq|]. right. exact Hc.
+  - split; [apply Hmk; left; exact Hok'|]. left. split; [exact Hp|].
+    rewrite (loop_round_sums _ Hok') in HleF. exact HleF.
 Qed.
 
-(** * Part I: the first round *)
+(** * Part I: a round, delivery by delivery (the first round, and the part of a later round
+    after the replay) *)
 Definition chunk (X : list (elem (bin Z Z))) (nf : nat) (ld rd : list (elem Z)) (bl br : nat) : Prop :=
   piece X nf ld rd bl br /\ (nf = 0 -> X = []) /\ (nf <> 0 -> endsF X).
 Definition b2n (n : nat) : nat := if n =? 0 then 0 else 1.
@@ -925,9 +925,10 @@ Proof.
     + apply endsF_app_r. apply H1. discriminate.
 Qed.
 
-Lemma after_idle_live nl mfl mtl C full mfr :
+Lemma after_idle_live nl nr mfl mtl C full mfr mtr :
   mtl <> 0 \/ mfr <> 0 ->
-  after_idle nl mfl mtl C full mfr = mkB (mkL nl mfl mtl C full (length C) []) (mkR mfr 1 []) false.
+  after_idle nl nr mfl mtl C full mfr mtr
+  = mkB (mkL nl mfl mtl C full (length C) []) (mkR nr mfr mtr []) false.
 Proof.
   intros H. unfold after_idle.
   destruct (Nat.eqb_spec mtl 0), (Nat.eqb_spec mfr 0); cbn [andb]; try reflexivity. lia.
@@ -936,20 +937,26 @@ Qed.
 Lemma endsF_closing (D : list (elem (bin Z Z))) (M : list (elem (bin Z Z))) : endsF (D ++ M ++ [FAR]).
 Proof. exists (D ++ M). now rewrite <- app_assoc. Qed.
 
-Lemma round1_trace nl : forall rest C,
-  rest_ok nl rest ->
+Lemma b2n_S_split x : (if x =? 0 then 1 else 0) + b2n x = b2n (S x).
+Proof. unfold b2n. cbn [Nat.eqb]. destruct (x =? 0); reflexivity. Qed.
+
+Lemma round_trace nl nr full : nr <> 0 -> forall rest C,
+  rest_ok nl nr rest -> (full = true -> no_left rest = true) ->
   exists T Cx,
-    brun_msgs (after_idle nl (sumL cntF rest) (sumL cntT rest) C false (sumR cntF rest)) rest
-      = (Rst nl (C ++ Cx), T) /\
+    brun_msgs (after_idle nl nr (sumL cntF rest) (sumL cntT rest) C full (sumR cntF rest) nr) rest
+      = (Rst nl nr (C ++ Cx) nr, T) /\
     chunk (cflat T) (sumL cntF rest + sumR cntF rest) (side_data true rest) (side_data false rest)
           (b2n (sumL cntF rest)) (b2n (sumR cntF rest)) /\
-    chunk (cflat Cx) (sumL cntF rest) (side_data true rest) [] (b2n (sumL cntF rest)) 0.
+    chunk (cflat Cx) (sumL cntF rest) (side_data true rest) [] (b2n (sumL cntF rest)) 0 /\
+    (no_left rest = true -> Cx = []).
 Proof.
-  induction rest as [|d rest IH]; intros C Hok.
+  intros Hnr. induction rest as [|d rest IH]; intros C Hok Hfull.
   - exists [], []. cbn [sumL sumR brun_msgs]. rewrite app_nil_r.
-    split; [reflexivity|]. split; apply chunk_nil.
+    split; [reflexivity|]. split; [apply chunk_nil|]. split; [apply chunk_nil|reflexivity].
   - destruct d as [s b | s b].
-    + destruct (rest_ok_DL _ _ _ _ Hok) as (Hok' & Hcase).
+    + destruct full; [specialize (Hfull eq_refl); discriminate Hfull|]. clear Hfull.
+      assert (Hfull' : false = true -> no_left rest = true) by discriminate.
+      destruct (rest_ok_DL _ _ _ _ _ Hok) as (Hok' & Hcase).
       cbn [sumL sumR side_data flat_map brun_msgs].
       fold (side_data true rest). fold (side_data false rest).
       destruct Hcase as [(Hp & HT & HF) | [(Hc & HT) | ->]].
@@ -957,16 +964,16 @@ Proof.
         destruct (plain_counts _ Hp) as [E1 E2]. rewrite E1, E2. cbn [Nat.add].
         rewrite after_idle_live by lia.
         assert (Hne : sumL cntT rest <> 0) by lia.
-        rewrite (r1_left_step _ _ _ _ _ _ _ _ _ _ _ Hne (pi_plain BL BLEnd true b _ _ Hp))
+        rewrite (r1_left_step _ _ _ _ _ _ _ _ _ _ _ _ _ Hne Hnr (pi_plain BL BLEnd true b _ _ Hp))
           by (etransitivity; [|apply bfuel_ge]; lia).
-        destruct (IH (C ++ [(s, map (emap BL) b)]) Hok') as (T & Cx & HR & HcT & HcC).
+        destruct (IH (C ++ [(s, map (emap BL) b)]) Hok' Hfull') as (T & Cx & HR & HcT & HcC & _).
         rewrite HR. exists ((s, map (emap BL) b) :: T), ((s, map (emap BL) b) :: Cx).
         split; [now rewrite <- app_assoc|].
         change (cflat ((s, map (emap BL) b) :: T)) with (map (emap BL) b ++ cflat T).
         change (cflat ((s, map (emap BL) b) :: Cx)) with (map (emap BL) b ++ cflat Cx).
         assert (Hn1 : sumL cntF rest + sumR cntF rest <> 0) by lia.
         assert (Hn2 : sumL cntF rest <> 0) by lia.
-        split.
+        split; [|split; [|discriminate]].
         -- apply (chunk_cons_noF _ _ _ _ _ _ _ _ [] (piece_plainL b Hp) Hn1 HcT).
         -- apply (chunk_cons_noF _ _ _ _ _ _ _ _ [] (piece_plainL b Hp) Hn2 HcC).
       * (* closing left batch *)
@@ -974,69 +981,179 @@ Proof.
         destruct (closing_batch_inv _ Hc) as (p & -> & Hp).
         rewrite after_idle_live by lia.
         assert (Hne : sumL cntT rest <> 0) by lia.
-        rewrite (r1_left_step _ _ _ _ _ _ _ _ _ _ _ Hne (pi_closing BL BLEnd true p _ _ Hp))
+        rewrite (r1_left_step _ _ _ _ _ _ _ _ _ _ _ _ _ Hne Hnr (pi_closing BL BLEnd true p _ _ Hp))
           by (etransitivity; [|apply bfuel_ge]; lia).
         cbn [pred].
         set (data := map (emap BL) p ++ (if sumL cntF rest =? 0 then [Item BLEnd] else []) ++ [FAR]).
-        destruct (IH (C ++ [(s, data)]) Hok') as (T & Cx & HR & HcT & HcC).
+        destruct (IH (C ++ [(s, data)]) Hok' Hfull') as (T & Cx & HR & HcT & HcC & _).
         rewrite HR. exists ((s, data) :: T), ((s, data) :: Cx).
         split; [now rewrite <- app_assoc|].
         change (cflat ((s, data) :: T)) with (data ++ cflat T).
         change (cflat ((s, data) :: Cx)) with (data ++ cflat Cx).
         pose proof (piece_closingL p (sumL cntF rest =? 0) Hp) as HD. fold data in HD.
         assert (HE : endsF data) by apply endsF_closing.
-        split.
+        split; [|split; [|discriminate]].
         -- eapply chunk_eq; [apply (chunk_cons_F _ _ _ _ _ _ _ _ [] _ 0 HD HE HcT)| | | | | ];
-             try reflexivity. unfold b2n. cbn [Nat.eqb]. destruct (sumL cntF rest =? 0); reflexivity.
+             try reflexivity. apply b2n_S_split.
         -- eapply chunk_eq; [apply (chunk_cons_F _ _ _ _ _ _ _ _ [] _ 0 HD HE HcC)| | | | | ];
-             try reflexivity. unfold b2n. cbn [Nat.eqb]. destruct (sumL cntF rest =? 0); reflexivity.
+             try reflexivity. apply b2n_S_split.
       * (* the sender's Terminate: dropped, an empty message is cached *)
         change (cntF [@Terminate Z]) with 0. change (cntT [@Terminate Z]) with 1. cbn [Nat.add].
         rewrite after_idle_live by lia.
         assert (Hne : S (sumL cntT rest) <> 0) by lia.
-        rewrite (r1_left_step _ _ _ _ _ _ _ _ _ _ _ Hne (pi_term BL BLEnd true _ _))
+        rewrite (r1_left_step _ _ _ _ _ _ _ _ _ _ _ _ _ Hne Hnr (pi_term BL BLEnd true _ _))
           by (etransitivity; [|apply bfuel_ge]; lia).
         cbn [pred].
-        destruct (IH (C ++ [(s, [])]) Hok') as (T & Cx & HR & HcT & HcC).
+        destruct (IH (C ++ [(s, [])]) Hok' Hfull') as (T & Cx & HR & HcT & HcC & _).
         rewrite HR. exists ((s, []) :: T), ((s, []) :: Cx).
-        split; [now rewrite <- app_assoc|]. split; [exact HcT|exact HcC].
-    + destruct (rest_ok_DR _ _ _ _ Hok) as (-> & Hok' & Hcase).
+        split; [now rewrite <- app_assoc|]. split; [exact HcT|]. split; [exact HcC|discriminate].
+    + destruct (rest_ok_DR _ _ _ _ _ Hok) as (Hs & Hok' & Hcase).
+      assert (Hfull' : full = true -> no_left rest = true).
+      { intros E. specialize (Hfull E). exact Hfull. }
       cbn [sumL sumR side_data flat_map brun_msgs].
       fold (side_data true rest). fold (side_data false rest).
-      destruct Hcase as [(Hp & HF) | (Hc & HF)].
+      destruct Hcase as [(Hp & HF) | Hc].
       * (* plain right batch *)
         destruct (plain_counts _ Hp) as [E1 E2]. rewrite E1. cbn [Nat.add].
         rewrite after_idle_live by lia.
-        replace (mkR (sumR cntF rest) 1 []) with (mkR 1 1 []) by now rewrite HF.
-        destruct (pdata_plain _ Hp) as [Hpi Hpd].
-        rewrite (right_step _ _ _ _ _ _ _ _ _ Hpi) by (etransitivity; [|apply bfuel_ge]; lia).
-        destruct (IH C Hok') as (T & Cx & HR & HcT & HcC).
-        rewrite HF in HR at 1. rewrite HR. exists ((nl + 0, pdata b) :: T), Cx.
-        split; [reflexivity|]. split; [|exact HcC].
-        change (cflat ((nl + 0, pdata b) :: T)) with (pdata b ++ cflat T). rewrite Hpd.
+        assert (Hne : sumR cntF rest <> 0) by lia.
+        rewrite (right_step _ _ _ _ _ _ _ _ _ _ _ _ _ Hne Hnr (pi_plain BR BREnd false b _ _ Hp))
+          by (etransitivity; [|apply bfuel_ge]; lia).
+        destruct (IH C Hok' Hfull') as (T & Cx & HR & HcT & HcC & HCx).
+        rewrite HR. exists ((nl + s, map (emap BR) b) :: T), Cx.
+        split; [reflexivity|]. split; [|split; [exact HcC|exact HCx]].
+        change (cflat ((nl + s, map (emap BR) b) :: T)) with (map (emap BR) b ++ cflat T).
         assert (Hn1 : sumL cntF rest + sumR cntF rest <> 0) by lia.
         apply (chunk_cons_noF _ _ _ _ _ _ _ [] _ (piece_plainR b Hp) Hn1 HcT).
       * (* closing right batch *)
-        destruct (closing_counts _ Hc) as [E1 E2]. rewrite E1. rewrite HF. cbn [Nat.add].
+        destruct (closing_counts _ Hc) as [E1 E2]. rewrite E1. cbn [Nat.add].
+        destruct (closing_batch_inv _ Hc) as (p & -> & Hp).
         rewrite after_idle_live by lia.
-        destruct (pdata_closing _ Hc) as (p & Hb & Hp & Hpi & Hpd).
-        rewrite (right_step _ _ _ _ _ _ _ _ _ Hpi) by (etransitivity; [|apply bfuel_ge]; lia).
-        pose proof (IH C Hok') as (T & Cx & HR & HcT & HcC). rewrite HF in HR, HcT.
-        rewrite HR. exists ((nl + 0, pdata b) :: T), Cx.
-        split; [reflexivity|]. split; [|exact HcC].
-        change (cflat ((nl + 0, pdata b) :: T)) with (pdata b ++ cflat T). rewrite Hpd.
-        pose proof (piece_closingR p Hp) as HD. rewrite <- Hb in HD.
-        assert (HE : endsF (map (emap BR) p ++ [Item BREnd] ++ [FAR])) by apply endsF_closing.
+        assert (Hne : S (sumR cntF rest) <> 0) by lia.
+        rewrite (right_step _ _ _ _ _ _ _ _ _ _ _ _ _ Hne Hnr (pi_closing BR BREnd false p _ _ Hp))
+          by (etransitivity; [|apply bfuel_ge]; lia).
+        cbn [pred].
+        set (data := map (emap BR) p ++ (if sumR cntF rest =? 0 then [Item BREnd] else []) ++ [FAR]).
+        destruct (IH C Hok' Hfull') as (T & Cx & HR & HcT & HcC & HCx).
+        rewrite HR. exists ((nl + s, data) :: T), Cx.
+        split; [reflexivity|]. split; [|split; [exact HcC|exact HCx]].
+        change (cflat ((nl + s, data) :: T)) with (data ++ cflat T).
+        pose proof (piece_closingR p (sumR cntF rest =? 0) Hp) as HD. fold data in HD.
+        assert (HE : endsF data) by apply endsF_closing.
         eapply chunk_eq; [apply (chunk_cons_F _ _ _ _ _ _ _ [] _ 0 _ HD HE HcT)| | | | | ];
-          try reflexivity; lia.
+          try reflexivity; [lia|apply b2n_S_split].
 Qed.
 
+(** * Part G: the later rounds of the loop side, and the final Terminates *)
+Lemma plain_no_content (b : list (elem Z)) :
+  plain_batch b = true -> has_non_term b = false -> b = [].
+Proof.
+  destruct b as [|e b]; [reflexivity|]. intros Hp Hn. apply plain_cons in Hp as [He _].
+  cbn [has_non_term existsb] in Hn. destruct e; discriminate.
+Qed.
+Lemma closing_content (b : list (elem Z)) : closing_batch b = true -> has_non_term b = true.
+Proof.
+  intros Hc. destruct (closing_batch_inv _ Hc) as (p & -> & _).
+  unfold has_non_term. rewrite existsb_app. cbn [existsb]. now rewrite orb_true_r.
+Qed.
+
+Lemma no_left_facts f r : no_left r = true -> side_data true r = [] /\ sumL f r = 0.
+Proof.
+  unfold side_data. induction r as [|[s b|s b] r IH]; intros H; [auto|discriminate|].
+  cbn [no_left forallb andb] in H. cbn [flat_map sumL app]. now apply IH.
+Qed.
+
+(** a whole later round: leading empty batches, the first batch with content, the replayed
+    cache, the rest of the round *)
+Lemma later_round_trace nl nr C ld :
+  nr <> 0 -> C <> [] -> piece (cflat C) nl ld [] 1 0 -> endsF (cflat C) ->
+  forall r, rest_ok nl nr r -> no_left r = true -> sumR cntF r = nr ->
+  exists T, brun_msgs (Rst nl nr C nr) r = (Rst nl nr C nr, T) /\
+            piece (cflat T) (nl + nr) ld (side_data false r) 1 1 /\ endsF (cflat T).
+Proof.
+  intros Hnr HC HPC HEC. induction r as [|[s b|s b] r IH]; intros Hok Hnl Hsum.
+  - cbn in Hsum. congruence.
+  - discriminate Hnl.
+  - destruct (rest_ok_DR _ _ _ _ _ Hok) as (Hs & Hok' & Hcase).
+    assert (Hnl' : no_left r = true) by exact Hnl.
+    destruct (no_left_facts cntF r Hnl') as [Hsd HsF].
+    destruct (no_left_facts cntT r Hnl') as [_ HsT].
+    cbn [sumR] in Hsum. cbn [brun_msgs side_data flat_map]. fold (side_data false r).
+    assert (Hfuel : length C + 2 <= bfuel (bpush (Rst nl nr C nr) (DR s b))).
+    { pose proof (bfuel_push_R nl nl 0 C true 0 (mkR nr nr nr []) true (DR s b)) as H.
+      unfold Rst. lia. }
+    destruct (has_non_term b) eqn:Hnt.
+    + (* first batch with content: replay, then the rest of the round *)
+      destruct Hcase as [(Hp & HF) | Hc].
+      * destruct (plain_counts _ Hp) as [E1 _]. rewrite E1 in Hsum. cbn [Nat.add] in Hsum.
+        rewrite (later_first _ _ _ _ _ _ _ _ _ Hnr Hnr Hnt (pi_plain BR BREnd false b _ _ Hp) HC Hfuel).
+        destruct (round_trace nl nr true Hnr r C Hok' (fun _ => Hnl')) as (T & Cx & HR & HcT & _ & HCx).
+        rewrite (HCx Hnl'), app_nil_r in HR. rewrite HsF, HsT, Hsum in HR. rewrite HR.
+        exists ((nl + s, map (emap BR) b) :: C ++ T). split; [reflexivity|].
+        change ((nl + s, map (emap BR) b) :: C ++ T) with ([(nl + s, map (emap BR) b)] ++ C ++ T).
+        rewrite !cflat_app. unfold cflat at 1 4. cbn [map concat snd]. rewrite !app_nil_r.
+        rewrite HsF, Hsum, Hsd in HcT. destruct HcT as (HpT & _ & HeT).
+        split; [|apply endsF_app_r, endsF_app_r, HeT; cbn; lia].
+        eapply piece_eq; [apply piece_app; [apply piece_plainR; exact Hp|
+                          apply piece_app; [exact HPC|exact HpT]]| | | | | ];
+          try reflexivity; try lia.
+        -- cbn [app]. now rewrite app_nil_r.
+        -- unfold b2n. destruct (Nat.eqb_spec nr 0); [contradiction|reflexivity].
+      * destruct (closing_counts _ Hc) as [E1 _]. rewrite E1 in Hsum.
+        destruct (closing_batch_inv _ Hc) as (p & -> & Hp).
+        rewrite (later_first _ _ _ _ _ _ _ _ _ Hnr Hnr Hnt (pi_closing BR BREnd false p _ _ Hp) HC Hfuel).
+        assert (Hpred : pred nr = sumR cntF r) by lia. rewrite Hpred.
+        set (data := map (emap BR) p ++ (if sumR cntF r =? 0 then [Item BREnd] else []) ++ [FAR]).
+        destruct (round_trace nl nr true Hnr r C Hok' (fun _ => Hnl')) as (T & Cx & HR & HcT & _ & HCx).
+        rewrite (HCx Hnl'), app_nil_r in HR. rewrite HsF, HsT in HR. rewrite HR.
+        exists ((nl + s, data) :: C ++ T). split; [reflexivity|].
+        change ((nl + s, data) :: C ++ T) with ([(nl + s, data)] ++ C ++ T).
+        rewrite !cflat_app. unfold cflat at 1 4. cbn [map concat snd]. rewrite !app_nil_r.
+        rewrite HsF, Hsd in HcT. destruct HcT as (HpT & H0T & HeT).
+        pose proof (piece_closingR p (sumR cntF r =? 0) Hp) as HD. fold data in HD.
+        split.
+        -- eapply piece_eq; [apply piece_app; [exact HD|apply piece_app; [exact HPC|exact HpT]]| | | | | ];
+             try reflexivity; try lia.
+           ++ cbn [app]. now rewrite app_nil_r.
+           ++ cbn [b2n Nat.add]. change (b2n 0) with 0. cbn [Nat.add].
+              rewrite b2n_S_split. reflexivity.
+        -- destruct (sumR cntF r) as [|x] eqn:Ex.
+           ++ rewrite (H0T eq_refl), app_nil_r. apply endsF_app_r. exact HEC.
+           ++ apply endsF_app_r, endsF_app_r, HeT. cbn; lia.
+    + (* an empty batch: the receiver keeps waiting for the first message *)
+      assert (Hp : plain_batch b = true).
+      { destruct Hcase as [[Hp _]|Hc]; [exact Hp|]. rewrite (closing_content _ Hc) in Hnt. discriminate. }
+      rewrite (plain_no_content _ Hp Hnt) in *. cbn in Hsum.
+      rewrite (later_skip nl nr C nr s [] nr [] _ Hnr Hnr Hnr eq_refl eq_refl)
+        by (etransitivity; [|apply bfuel_ge]; lia).
+      destruct (IH Hok' Hnl' Hsum) as (T & HR & HpT & HeT). rewrite HR.
+      exists ((nl + s, []) :: T). split; [reflexivity|]. split; assumption.
+Qed.
+
+Lemma final_trace nl nr C : nl <> 0 -> nr <> 0 -> forall terms mtr,
+  length terms = mtr -> mtr <> 0 ->
+  exists b' rest,
+    brun_msgs (Rst nl nr C mtr) (map (fun s => DR s [Terminate]) terms)
+    = (b', map (fun s => (nl + s, [Terminate])) terms ++ (0, repeat Terminate nl) :: rest).
+Proof.
+  intros Hnl Hnr. induction terms as [|s t IH]; intros mtr Hlen Hm; [cbn in Hlen; congruence|].
+  cbn [map brun_msgs]. cbn [length] in Hlen. destruct t as [|s' t'].
+  - subst mtr.
+    destruct (final_step nl nr C s (bfuel (bpush (Rst nl nr C 1) (DR s [Terminate]))) Hnl Hnr
+                ltac:(etransitivity; [|apply bfuel_ge]; lia)) as (b' & rest & HR).
+    cbn [length]. rewrite HR. cbn [map brun_msgs]. exists b', rest. now rewrite app_nil_r.
+  - assert (Hm' : pred mtr <> 0) by (subst mtr; cbn [length pred]; lia).
+    rewrite (later_skip nl nr C mtr s [Terminate] (pred mtr) [Terminate] _ Hnr Hm Hm' eq_refl
+               (pi_term BR BREnd false nr mtr)) by (etransitivity; [|apply bfuel_ge]; lia).
+    destruct (IH (pred mtr) ltac:(subst mtr; reflexivity) Hm') as (b' & rest & HR).
+    rewrite HR. exists b', rest. reflexivity.
+Qed.
 (** * Part J: the Start over whole rounds and over the final Terminates *)
 Definition rout (ld rd : list (elem Z)) (o : list (elem (bin Z Z))) : Prop :=
   forallb cleanel o = true /\ Lp o = ld /\ Rp o = rd /\
   count_item BLEnd o = 1 /\ count_item BREnd o = 1.
-Definition wround (nl : nat) (ld : list (elem Z)) (T : list msg) (rd : list (elem Z)) : Prop :=
-  piece (cflat T) (S nl) ld rd 1 1 /\ endsF (cflat T).
+Definition wround (N : nat) (ld : list (elem Z)) (T : list msg) (rd : list (elem Z)) : Prop :=
+  piece (cflat T) N ld rd 1 1 /\ endsF (cflat T).
 
 Lemma proj_data_eq (a b : list (elem (bin Z Z))) :
   filter is_data a = filter is_data b ->
@@ -1049,9 +1166,9 @@ Proof.
     unfold bz in *. rewrite <- Ha, <- Hb, H. reflexivity.
 Qed.
 
-Lemma srun_wround nl ld rd T mt st :
-  wround nl ld T rd -> SS (S nl) mt (S nl) st -> mt <> 0 ->
-  exists st' o, srun st (flat T) = (st', o ++ [FAR]) /\ SS (S nl) mt (S nl) st' /\ rout ld rd o.
+Lemma srun_wround N ld rd T mt st :
+  wround N ld T rd -> SS N mt N st -> mt <> 0 ->
+  exists st' o, srun st (flat T) = (st', o ++ [FAR]) /\ SS N mt N st' /\ rout ld rd o.
 Proof.
   intros [(P1 & P2 & P3 & P4 & P5 & P6) [X' HX]] HS Hmt.
   rewrite HX in P1, P2, P3, P4, P5, P6.
@@ -1060,17 +1177,17 @@ Proof.
   rewrite Lp_app in P3. rewrite Rp_app in P4. rewrite count_item_app in P5, P6.
   cbn in P3, P4, P5, P6. rewrite app_nil_r in P3, P4. rewrite Nat.add_0_r in P5, P6.
   assert (Hl : map snd (flat T) = X' ++ [FAR]) by (rewrite map_snd_flat; exact HX).
-  destruct (srun_round (flat T) X' (S nl) mt (S nl) st Hl P1 ltac:(lia) HS Hmt)
+  destruct (srun_round (flat T) X' N mt N st Hl P1 ltac:(lia) HS Hmt)
     as (st' & o & Hr & HS' & Hc & Hd).
   exists st', o. split; [exact Hr|]. split; [exact HS'|].
   split; [exact Hc|]. destruct (proj_data_eq _ _ Hd) as (E1 & E2 & E3).
   rewrite E1, E2, !E3. auto.
 Qed.
 
-Lemma srun_rounds nl ld mt : forall Ts rds st,
-  Forall2 (wround nl ld) Ts rds -> SS (S nl) mt (S nl) st -> mt <> 0 ->
+Lemma srun_rounds N ld mt : forall Ts rds st,
+  Forall2 (wround N ld) Ts rds -> SS N mt N st -> mt <> 0 ->
   exists st' os, srun st (flat (concat Ts)) = (st', concat (map (fun o => o ++ [FAR]) os)) /\
-                 SS (S nl) mt (S nl) st' /\ Forall2 (rout ld) rds os.
+                 SS N mt N st' /\ Forall2 (rout ld) rds os.
 Proof.
   intros Ts rds st HF. revert st. induction HF as [|T rd Ts rds HT HF IH]; intros st HS Hmt.
   - exists st, []. cbn. auto.
@@ -1153,31 +1270,33 @@ Proof.
   destruct Ho as (_ & _ & -> & _). reflexivity.
 Qed.
 
-Lemma c11_pred_intro nl ds (out : list (elem bz)) (rs : list (list (elem bz))) :
+Lemma c11_pred_intro nl nr ds (out : list (elem bz)) (rs : list (list (elem bz))) :
+  nr <> 0 ->
   strip_fb out = out -> split_rounds [] out = (rs, [Terminate]) ->
-  length rs = side_fars false ds ->
+  length rs * nr = side_fars false ds ->
   (forall r, In r rs -> Lp r = side_data true ds /\ count_item BLEnd r = 1 /\ count_item BREnd r = 1) ->
   Rp out = side_data false ds ->
-  c11_pred nl 1 true false ds out = true.
+  c11_pred nl nr true false ds out = true.
 Proof.
-  intros H1 H2 Hlen Hrs HR. unfold c11_pred. rewrite H1, H2.
-  cbn [negb orb]. rewrite Nat.div_1_r, Hlen, Nat.eqb_refl. cbn [andb].
+  intros Hnr H1 H2 Hlen Hrs HR. unfold c11_pred. rewrite H1, H2.
+  cbn [negb orb]. rewrite <- Hlen, Nat.div_mul by exact Hnr. rewrite Nat.eqb_refl. cbn [andb].
   fold (Rp out). rewrite HR, zout_eqb_refl, andb_true_r.
   apply forallb_forall. intros r Hr. destruct (Hrs r Hr) as (HL & E1 & E2).
   fold (Lp r). rewrite HL, zout_eqb_refl, E1, E2. reflexivity.
 Qed.
 
-Lemma c11_pred_struct nl ds ld rds os :
+Lemma c11_pred_struct nl nr ds ld rds os :
+  nr <> 0 ->
   Forall2 (rout ld) rds os ->
-  length os = side_fars false ds ->
+  length os * nr = side_fars false ds ->
   ld = side_data true ds ->
   concat rds = side_data false ds ->
-  c11_pred nl 1 true false ds (concat (map (fun o => o ++ [FAR]) os) ++ [Terminate]) = true.
+  c11_pred nl nr true false ds (concat (map (fun o => o ++ [FAR]) os) ++ [Terminate]) = true.
 Proof.
-  intros HF Hlen Hld Hrd.
+  intros Hnr HF Hlen Hld Hrd.
   assert (Hclean : Forall (fun o => forallb cleanel o = true) os).
   { clear -HF. induction HF as [|rd o rds os Ho HF IH]; constructor; [apply Ho|exact IH]. }
-  apply (c11_pred_intro nl ds _ os).
+  apply (c11_pred_intro nl nr ds _ os Hnr).
   - apply strip_struct. exact Hclean.
   - apply split_struct. exact Hclean.
   - exact Hlen.
@@ -1189,6 +1308,7 @@ Proof.
   - rewrite <- Hrd. apply (Rp_struct ld). exact HF.
 Qed.
 
+
 (** * Part L: assembling the run *)
 Lemma list_sum_ones {A} (g : A -> nat) l : (forall x, In x l -> g x = 1) -> list_sum (map g l) = length l.
 Proof.
@@ -1197,63 +1317,101 @@ Proof.
   intros y Hy. apply H. now right.
 Qed.
 
-Lemma shape_facts nl round1 later :
-  c11_shape nl round1 later = true ->
-  rest_ok nl round1 /\ sumL cntF round1 = nl /\ sumL cntT round1 = nl /\ sumR cntF round1 = 1 /\
-  forallb loop_round_ok later = true.
+Lemma shape_facts_n nl nr round1 later terms :
+  c11_shape_n nl nr round1 later terms = true ->
+  rest_ok nl nr round1 /\ sumL cntF round1 = nl /\ sumL cntT round1 = nl /\ sumR cntF round1 = nr /\
+  forallb (later_round_ok nr) later = true /\ length terms = nr.
 Proof.
-  unfold c11_shape. intros H. apply andb_true_iff in H as [H Hlater].
+  unfold c11_shape_n. intros H. apply andb_true_iff in H as [H _].
+  apply andb_true_iff in H as [H Hterms]. apply Nat.eqb_eq in Hterms.
+  apply andb_true_iff in H as [H Hlater].
   apply andb_true_iff in H as [H Hright]. apply andb_true_iff in H as [Hsend Hleft].
-  rewrite forallb_forall in Hleft.
+  rewrite forallb_forall in Hleft, Hright.
   assert (Hs : forall s, s < nl -> side_sender_ok (left_of s round1) = true).
   { intros s Hs. apply Hleft. apply in_seq. lia. }
-  split; [|split; [|split; [|split]]].
-  - split; [exact Hsend|]. split; [|left; exact Hright].
-    intros s Hlt. left. now apply Hs.
-  - rewrite (sumL_partition cntF nl round1 Hsend), list_sum_ones, seq_length; [reflexivity|].
+  assert (Hr : forall s, s < nr -> loop_round_ok (right_of s round1) = true).
+  { intros s Hs'. apply Hright. apply in_seq. lia. }
+  split; [|split; [|split; [|split; [|split]]]].
+  - split; [exact Hsend|]. split; intros s Hlt; left; auto.
+  - rewrite (sumL_partition cntF nl nr round1 Hsend), list_sum_ones, seq_length; [reflexivity|].
     intros s Hin. apply in_seq in Hin. apply side_sender_sums. apply Hs. lia.
-  - rewrite (sumL_partition cntT nl round1 Hsend), list_sum_ones, seq_length; [reflexivity|].
+  - rewrite (sumL_partition cntT nl nr round1 Hsend), list_sum_ones, seq_length; [reflexivity|].
     intros s Hin. apply in_seq in Hin. apply side_sender_sums. apply Hs. lia.
-  - rewrite sumR_right_all. now apply loop_round_sums.
+  - rewrite (sumR_partition cntF nl nr round1 Hsend), list_sum_ones, seq_length; [reflexivity|].
+    intros s Hin. apply in_seq in Hin. apply loop_round_sums. apply Hr. lia.
   - exact Hlater.
+  - exact Hterms.
 Qed.
 
-Lemma later_rounds nl C ld :
-  C <> [] -> piece (cflat C) nl ld [] 1 0 -> endsF (cflat C) ->
-  forall later, forallb loop_round_ok later = true ->
-  exists Ts, brun_msgs (Rst nl C) (map (DR 0) (concat later)) = (Rst nl C, concat Ts) /\
-             Forall2 (wround nl ld) Ts (map (flat_map (filter is_data)) later).
+Lemma left_of_no_left s r : no_left r = true -> left_of s r = [].
 Proof.
-  intros HC HP HE. induction later as [|bs later IH]; intros Hok.
+  unfold left_of. induction r as [|[s' b|s' b] r IH]; intros H; [reflexivity|discriminate|].
+  cbn [flat_map app]. now apply IH.
+Qed.
+Lemma senders_ok_n_no_left nl nr r : no_left r = true -> senders_ok_n 0 nr r = true -> senders_ok_n nl nr r = true.
+Proof.
+  unfold senders_ok_n. induction r as [|[s' b|s' b] r IH]; intros H1 H2; [reflexivity|discriminate|].
+  cbn [forallb] in *. apply andb_true_iff in H2 as [H2 H3]. rewrite H2. cbn [andb]. now apply IH.
+Qed.
+
+Lemma later_round_facts nl nr r :
+  later_round_ok nr r = true -> rest_ok nl nr r /\ no_left r = true /\ sumR cntF r = nr.
+Proof.
+  unfold later_round_ok. intros H. apply andb_true_iff in H as [H Hright].
+  apply andb_true_iff in H as [Hnl Hsend]. rewrite forallb_forall in Hright.
+  assert (Hr : forall s, s < nr -> loop_round_ok (right_of s r) = true).
+  { intros s Hs'. apply Hright. apply in_seq. lia. }
+  pose proof (senders_ok_n_no_left nl nr r Hnl Hsend) as Hsend'.
+  split; [|split; [exact Hnl|]].
+  - split; [exact Hsend'|]. split.
+    + intros s _. right; right. now apply left_of_no_left.
+    + intros s Hlt. left. auto.
+  - rewrite (sumR_partition cntF nl nr r Hsend'), list_sum_ones, seq_length; [reflexivity|].
+    intros s Hin. apply in_seq in Hin. apply loop_round_sums. apply Hr. lia.
+Qed.
+
+Lemma later_rounds nl nr C ld :
+  nr <> 0 -> C <> [] -> piece (cflat C) nl ld [] 1 0 -> endsF (cflat C) ->
+  forall later, forallb (later_round_ok nr) later = true ->
+  exists Ts, brun_msgs (Rst nl nr C nr) (concat later) = (Rst nl nr C nr, concat Ts) /\
+             Forall2 (wround (nl + nr) ld) Ts (map (side_data false) later).
+Proof.
+  intros Hnr HC HP HE. induction later as [|r later IH]; intros Hok.
   - exists []. split; [reflexivity|constructor].
-  - cbn [forallb] in Hok. apply andb_true_iff in Hok as [Hbs Hok].
+  - cbn [forallb] in Hok. apply andb_true_iff in Hok as [Hr Hok].
     destruct (IH Hok) as (Ts & HR & HF).
-    destruct bs as [|b bs]; [discriminate|].
-    exists ((rmsg nl b :: C ++ map (rmsg nl) bs) :: Ts).
-    cbn [concat]. rewrite map_app, brun_msgs_app, (later_round nl C b bs HC Hbs), HR.
-    split; [reflexivity|]. cbn [map]. constructor; [|exact HF].
-    destruct (round_piece nl C ld b bs HP HE Hbs) as [R1 R2]. split; assumption.
+    destruct (later_round_facts nl nr r Hr) as (Hrok & Hnl & Hsum).
+    destruct (later_round_trace nl nr C ld Hnr HC HP HE r Hrok Hnl Hsum) as (T & HRr & HpT & HeT).
+    exists (T :: Ts). cbn [concat]. rewrite brun_msgs_app, HRr, HR.
+    split; [reflexivity|]. cbn [map]. constructor; [split; assumption|exact HF].
 Qed.
 
 Lemma sumR_app f a b : sumR f (a ++ b) = sumR f a + sumR f b.
 Proof. induction a as [|[s x|s x] a IH]; cbn [app sumR]; lia. Qed.
-Lemma sumR_DR f bs : sumR f (map (DR 0) bs) = sumB f bs.
-Proof. induction bs as [|b bs IH]; cbn [map sumR sumB]; lia. Qed.
-Lemma sumB_concat_later : forall later,
-  forallb loop_round_ok later = true -> sumB cntF (concat later) = length later.
+Lemma sumR_concat_later nr : forall later,
+  forallb (later_round_ok nr) later = true -> sumR cntF (concat later) = length later * nr.
 Proof.
-  induction later as [|bs later IH]; intros H; [reflexivity|].
+  induction later as [|r later IH]; intros H; [reflexivity|].
   cbn [forallb] in H. apply andb_true_iff in H as [H1 H2].
-  cbn [concat length]. rewrite sumB_app, (loop_round_sums _ H1), (IH H2). reflexivity.
+  destruct (later_round_facts 0 nr r H1) as (_ & _ & Hs).
+  cbn [concat length]. rewrite sumR_app, Hs, (IH H2). cbn [Nat.mul]. reflexivity.
 Qed.
+Lemma sumR_terms terms : sumR cntF (map (fun s => DR s [Terminate]) terms) = 0.
+Proof. induction terms as [|s t IH]; [reflexivity|]. cbn [map sumR]. rewrite IH. reflexivity. Qed.
 Lemma side_data_app left a b : side_data left (a ++ b) = side_data left a ++ side_data left b.
 Proof. unfold side_data. now rewrite flat_map_app. Qed.
-Lemma side_data_true_DR bs : side_data true (map (DR 0) bs) = [].
-Proof. induction bs as [|b bs IH]; [reflexivity|]. cbn [map]. unfold side_data in *. cbn [flat_map app]. exact IH. Qed.
-Lemma side_data_false_DR bs : side_data false (map (DR 0) bs) = flat_map (filter is_data) bs.
+Lemma side_data_terms left terms : side_data left (map (fun s => DR s [Terminate]) terms) = [].
 Proof.
-  induction bs as [|b bs IH]; [reflexivity|]. cbn [map]. unfold side_data in *.
-  cbn [flat_map]. now rewrite IH.
+  induction terms as [|s t IH]; [reflexivity|]. cbn [map]. unfold side_data in *. cbn [flat_map].
+  rewrite IH. destruct left; reflexivity.
+Qed.
+Lemma side_data_true_later nr : forall later,
+  forallb (later_round_ok nr) later = true -> side_data true (concat later) = [].
+Proof.
+  induction later as [|r later IH]; intros H; [reflexivity|].
+  cbn [forallb] in H. apply andb_true_iff in H as [H1 H2].
+  destruct (later_round_facts 0 nr r H1) as (_ & Hnl & _).
+  cbn [concat]. rewrite side_data_app, (IH H2). destruct (no_left_facts cntF r Hnl) as [-> _]. reflexivity.
 Qed.
 Lemma flat_map_concat {A B} (f : A -> list B) ls : flat_map f (concat ls) = concat (map (flat_map f) ls).
 Proof. induction ls as [|l ls IH]; [reflexivity|]. cbn [concat map]. now rewrite flat_map_app, IH. Qed.
@@ -1261,58 +1419,105 @@ Proof. induction ls as [|l ls IH]; [reflexivity|]. cbn [concat map]. now rewrite
 Lemma Forall2_length {A B} (R : A -> B -> Prop) l1 l2 : Forall2 R l1 l2 -> length l1 = length l2.
 Proof. induction 1; cbn [length]; congruence. Qed.
 
-(** * T1 *)
+Lemma cflat_terms nl terms :
+  cflat (map (fun s => (nl + s, [@Terminate (bin Z Z)])) terms) = repeat Terminate (length terms).
+Proof. induction terms as [|s t IH]; [reflexivity|]. unfold cflat in *. cbn [map concat length repeat app]. now rewrite IH. Qed.
+
+(** * T3: any number of loop-side replicas *)
+Theorem c11_replay_general :
+  forall (nl nr : nat) (round1 : list del) (later : list (list del)) (terms : list nat),
+  (1 <= nl)%nat -> (1 <= nr)%nat -> c11_shape_n nl nr round1 later terms = true ->
+  c11_pred nl nr true false (c11_deliveries_n round1 later terms)
+           (brun nl nr true false (c11_deliveries_n round1 later terms)) = true.
+Proof.
+  intros nl nr round1 later terms Hnl1 Hnr1 Hshape.
+  assert (Hnl : nl <> 0) by lia. assert (Hnr : nr <> 0) by lia.
+  destruct (shape_facts_n _ _ _ _ _ Hshape) as (Hok & HsF & HsT & HsR & Hlater & Hterms).
+  set (ld := side_data true round1). set (rd1 := side_data false round1).
+  (* the trace *)
+  destruct (round_trace nl nr false Hnr round1 [] Hok ltac:(discriminate)) as (T1 & C1 & HR1 & HcT & HcC & _).
+  rewrite HsF, HsT, HsR in HR1. rewrite HsF, HsR in HcT. rewrite HsF in HcC. cbn [app] in HR1.
+  rewrite after_idle_live in HR1 by lia.
+  assert (Hb2 : forall n, n <> 0 -> b2n n = 1)
+    by (intros n Hn; unfold b2n; destruct (Nat.eqb_spec n 0); [contradiction|reflexivity]).
+  rewrite (Hb2 nl Hnl) in HcT, HcC. rewrite (Hb2 nr Hnr) in HcT.
+  destruct HcT as (HpT & _ & HeT). destruct HcC as (HpC & _ & HeC).
+  specialize (HeT ltac:(lia)). specialize (HeC Hnl).
+  assert (HC1 : C1 <> []).
+  { intros ->. destruct HeC as [X' HX]. cbn in HX. destruct X'; discriminate. }
+  destruct (later_rounds nl nr C1 ld Hnr HC1 HpC HeC later Hlater) as (Ts & HR2 & HF2).
+  destruct (final_trace nl nr C1 Hnl Hnr terms nr Hterms Hnr) as (b' & rest & HR3).
+  set (Tf := map (fun s => (nl + s, [@Terminate (bin Z Z)])) terms ++ [(0, repeat Terminate nl)]).
+  assert (Htrace : snd (brun_msgs (binit nl nr true false) (c11_deliveries_n round1 later terms))
+                   = concat (T1 :: Ts) ++ Tf ++ rest).
+  { unfold c11_deliveries_n. rewrite brun_msgs_app.
+    change (binit nl nr true false)
+      with (mkB (mkL nl nl nl [] false (length (@nil msg)) []) (mkR nr nr nr []) false).
+    rewrite HR1. rewrite brun_msgs_app, HR2, HR3. unfold Tf.
+    cbn [snd concat]. rewrite <- !app_assoc. reflexivity. }
+  (* the Start over the trace *)
+  unfold brun. rewrite brun_trace, Htrace. clear Htrace.
+  assert (HW1 : wround (nl + nr) ld T1 rd1) by (split; assumption).
+  assert (HS0 : SS (nl + nr) (nl + nr) (nl + nr) (start_init (nl + nr))).
+  { unfold SS, start_init. cbn. auto. }
+  destruct (srun_rounds (nl + nr) ld (nl + nr) (T1 :: Ts) (rd1 :: map (side_data false) later)
+              (start_init (nl + nr)) (Forall2_cons _ _ HW1 HF2) HS0 ltac:(lia))
+    as (st1 & os & Hrun1 & HS1 & Hos).
+  rewrite !flat_app, srun_app, Hrun1, srun_app.
+  assert (HN : nl + nr = S (nl + nr - 1)) by lia. rewrite HN in HS1.
+  destruct (srun_terms (nl + nr - 1) (flat Tf) _ _ st1 HS1) as (st2 & Hrun2 & Hd2).
+  { rewrite map_snd_flat. unfold Tf. rewrite cflat_app, cflat_terms, Hterms.
+    unfold cflat. cbn [map concat snd]. rewrite app_nil_r, <- repeat_app. f_equal. lia. }
+  rewrite Hrun2, (srun_done _ _ Hd2). cbn [snd app].
+  (* the predicate *)
+  apply (c11_pred_struct nl nr _ ld (rd1 :: map (side_data false) later) os Hnr Hos).
+  - rewrite <- (Forall2_length _ _ _ Hos). cbn [length]. rewrite map_length.
+    rewrite side_fars_R. unfold c11_deliveries_n. rewrite !sumR_app, HsR, sumR_terms.
+    rewrite (sumR_concat_later _ _ Hlater). cbn [Nat.mul]. lia.
+  - unfold c11_deliveries_n. rewrite !side_data_app, side_data_terms.
+    rewrite (side_data_true_later _ _ Hlater). cbn [app]. now rewrite app_nil_r.
+  - unfold c11_deliveries_n. rewrite !side_data_app, side_data_terms. cbn [concat].
+    rewrite app_nil_r. f_equal. unfold side_data. rewrite flat_map_concat. reflexivity.
+Qed.
+
+(** * T1: one loop-side replica, in the original formulation, as an instance *)
+Lemma senders_ok_conv nl ds : senders_ok nl ds = true -> senders_ok_n nl 1 ds = true.
+Proof.
+  unfold senders_ok, senders_ok_n. induction ds as [|[s b|s b] ds IH]; cbn [forallb]; intros H;
+    [reflexivity| |]; apply andb_true_iff in H as [H1 H2]; rewrite (IH H2), andb_true_r.
+  - exact H1.
+  - apply Nat.eqb_eq in H1. subst. reflexivity.
+Qed.
+Lemma right_of_0_all nl ds : senders_ok nl ds = true -> right_of 0 ds = right_all ds.
+Proof.
+  unfold senders_ok, right_of, right_all. induction ds as [|[s b|s b] ds IH]; cbn [forallb flat_map]; intros H;
+    [reflexivity| |]; apply andb_true_iff in H as [H1 H2]; rewrite (IH H2); [reflexivity|].
+  apply Nat.eqb_eq in H1. subst. reflexivity.
+Qed.
+Lemma later_round_conv bs : loop_round_ok bs = true -> later_round_ok 1 (map (DR 0) bs) = true.
+Proof.
+  intros H. unfold later_round_ok.
+  assert (H1 : no_left (map (DR 0) bs) = true) by (clear H; induction bs; [reflexivity|exact IHbs]).
+  assert (H2 : senders_ok_n 0 1 (map (DR 0) bs) = true) by (clear H H1; induction bs; [reflexivity|exact IHbs]).
+  assert (H3 : right_of 0 (map (DR 0) bs) = bs).
+  { clear. unfold right_of. induction bs as [|b bs IH]; [reflexivity|]. cbn [map flat_map]. change (0 =? 0) with true. cbn [app]. f_equal. exact IH. }
+  rewrite H1, H2. cbn [seq forallb andb]. now rewrite H3, H.
+Qed.
+
 Theorem c11_replay : forall (nl : nat) (round1 : list del) (later : list (list (list (elem Z)))),
   (1 <= nl)%nat -> c11_shape nl round1 later = true ->
   c11_pred nl 1 true false (c11_deliveries round1 later)
            (brun nl 1 true false (c11_deliveries round1 later)) = true.
 Proof.
   intros nl round1 later Hnl Hshape.
-  destruct (shape_facts _ _ _ Hshape) as (Hok & HsF & HsT & HsR & Hlater).
-  set (ld := side_data true round1). set (rd1 := side_data false round1).
-  (* the trace *)
-  destruct (round1_trace nl round1 [] Hok) as (T1 & C1 & HR1 & HcT & HcC).
-  rewrite HsF, HsT, HsR in HR1. rewrite HsF, HsR in HcT. rewrite HsF in HcC. cbn [app] in HR1.
-  rewrite after_idle_live in HR1 by lia.
-  assert (Hb2 : b2n nl = 1) by (unfold b2n; destruct (Nat.eqb_spec nl 0); [lia|reflexivity]).
-  rewrite Hb2 in HcT, HcC. change (b2n 1) with 1 in HcT.
-  destruct HcT as (HpT & _ & HeT). destruct HcC as (HpC & _ & HeC).
-  specialize (HeT ltac:(lia)). specialize (HeC ltac:(lia)).
-  assert (HC1 : C1 <> []).
-  { intros ->. destruct HeC as [X' HX]. cbn in HX. destruct X'; discriminate. }
-  destruct (later_rounds nl C1 ld HC1 HpC HeC later Hlater) as (Ts & HR2 & HF2).
-  destruct (final_step nl C1 (bfuel (bpush (Rst nl C1) (DR 0 [Terminate]))) ltac:(lia)
-              ltac:(etransitivity; [|apply bfuel_ge]; lia)) as (b' & rest & HR3).
-  assert (Htrace : snd (brun_msgs (binit nl 1 true false) (c11_deliveries round1 later))
-                   = concat (T1 :: Ts) ++ ((nl + 0, [Terminate]) :: (0, repeat Terminate nl) :: rest)).
-  { unfold c11_deliveries. rewrite brun_msgs_app.
-    change (binit nl 1 true false) with (mkB (mkL nl nl nl [] false (length (@nil msg)) []) (mkR 1 1 []) false).
-    rewrite HR1. rewrite brun_msgs_app, HR2. cbn [brun_msgs]. rewrite HR3.
-    cbn [snd concat]. now rewrite app_nil_r, app_assoc. }
-  (* the Start over the trace *)
-  unfold brun. rewrite brun_trace, Htrace. clear Htrace.
-  assert (HW1 : wround nl ld T1 rd1).
-  { split; [|exact HeT]. eapply piece_eq; [exact HpT| | | | | ]; try reflexivity; lia. }
-  assert (HS0 : SS (S nl) (S nl) (S nl) (start_init (nl + 1))).
-  { unfold SS, start_init. cbn. repeat split; lia. }
-  destruct (srun_rounds nl ld (S nl) (T1 :: Ts) (rd1 :: map (flat_map (filter is_data)) later)
-              (start_init (nl + 1)) (Forall2_cons _ _ HW1 HF2) HS0 ltac:(lia))
-    as (st1 & os & Hrun1 & HS1 & Hos).
-  rewrite flat_app, srun_app, Hrun1.
-  change (flat ((nl + 0, [Terminate]) :: (0, repeat Terminate nl) :: rest))
-    with (((nl + 0, @Terminate (bin Z Z)) :: map (fun e => (0, e)) (repeat Terminate nl)) ++ flat rest).
-  rewrite srun_app.
-  destruct (srun_terms nl ((nl + 0, @Terminate (bin Z Z)) :: map (fun e => (0, e)) (repeat Terminate nl))
-              (S nl) nl st1 HS1) as (st2 & Hrun2 & Hd2).
-  { cbn [map snd]. rewrite map_map. cbn [snd]. rewrite map_id. reflexivity. }
-  rewrite Hrun2, (srun_done _ _ Hd2). cbn [snd app].
-  (* the predicate *)
-  apply (c11_pred_struct nl _ ld (rd1 :: map (flat_map (filter is_data)) later) os Hos).
-  - rewrite <- (Forall2_length _ _ _ Hos). cbn [length]. rewrite map_length.
-    rewrite side_fars_R. unfold c11_deliveries. rewrite !sumR_app, HsR, sumR_DR.
-    rewrite (sumB_concat_later _ Hlater). cbn. lia.
-  - unfold c11_deliveries. rewrite !side_data_app, side_data_true_DR. cbn.
-    now rewrite app_nil_r.
-  - unfold c11_deliveries. rewrite !side_data_app, side_data_false_DR. cbn [concat].
-    rewrite flat_map_concat. cbn. now rewrite app_nil_r.
+  assert (Hd : c11_deliveries round1 later = c11_deliveries_n round1 (map (map (DR 0)) later) [0]).
+  { unfold c11_deliveries, c11_deliveries_n. now rewrite concat_map. }
+  rewrite Hd. apply c11_replay_general; [exact Hnl|lia|].
+  unfold c11_shape in Hshape. apply andb_true_iff in Hshape as [H Hlater].
+  apply andb_true_iff in H as [H Hright]. apply andb_true_iff in H as [Hsend Hleft].
+  unfold c11_shape_n. rewrite (senders_ok_conv _ _ Hsend), Hleft. cbn [seq forallb andb length Nat.eqb Nat.ltb Nat.leb].
+  rewrite (right_of_0_all _ _ Hsend), Hright. cbn [andb]. rewrite !andb_true_r.
+  clear -Hlater. induction later as [|bs later IH]; [reflexivity|].
+  cbn [forallb map] in *. apply andb_true_iff in Hlater as [H1 H2].
+  now rewrite (later_round_conv _ H1), (IH H2).
 Qed.
